@@ -3,6 +3,7 @@
   head is the minimum, the store loops of `add_alt` / `remove_alt` in closed form, the index list.
   Core Lean only.
 -/
+import PyProb.Lemmas.GuardCanon
 import PyProb.Model.CMS
 
 namespace PyProb.CmsCore
